@@ -20,3 +20,29 @@ Theorem C07_grouping_irrelevant :
   forall orbit t cap cap' s e w, sem orbit (enc_tok cap t s e) w <-> sem orbit (enc_tok cap' t s e) w.
 Proof. intros orbit t cap cap' s e w. exact (enc_tok_cap orbit t cap cap' s e w). Qed.
 Print Assumptions C07_grouping_irrelevant.
+
+From WaxProofs Require Import ComposeFacts.
+
+(* at the level of the documented language, for every token tree: an alternation matches exactly what some branch matches;
+   a repetition matches exactly what its body written out a permitted number of times matches; and both hold in place,
+   inside any surrounding concatenation (flat positions of tree wildcards included: the language only depends on the flat
+   sequence of leaves) *)
+Theorem C07_alternation_is_union_of_branches : forall orbit sp bs w, Lang orbit (TAlt sp bs) w <-> exists b, In b bs /\ Lang orbit b w.
+Proof. exact lang_alt. Qed.
+Print Assumptions C07_alternation_is_union_of_branches.
+
+Theorem C07_repetition_is_iteration : forall orbit sp sp' b lo hi w,
+  Lang orbit (TRep sp b lo hi) w <-> exists n, in_bounds n lo hi /\ Lang orbit (TCat sp' (repeat b n)) w.
+Proof. exact lang_rep. Qed.
+Print Assumptions C07_repetition_is_iteration.
+
+Theorem C07_alternation_composes_in_place : forall orbit sp sp' pre bs post w,
+  Lang orbit (TCat sp (pre ++ TAlt sp' bs :: post)) w <-> exists b, In b bs /\ Lang orbit (TCat sp (pre ++ b :: post)) w.
+Proof. exact lang_alt_in_place. Qed.
+Print Assumptions C07_alternation_composes_in_place.
+
+Theorem C07_repetition_composes_in_place : forall orbit sp sp' sp'' pre b lo hi post w,
+  Lang orbit (TCat sp (pre ++ TRep sp' b lo hi :: post)) w <->
+  exists n, in_bounds n lo hi /\ Lang orbit (TCat sp (pre ++ TCat sp'' (repeat b n) :: post)) w.
+Proof. exact lang_rep_in_place. Qed.
+Print Assumptions C07_repetition_composes_in_place.
